@@ -15,6 +15,7 @@ Expressions are nested tuples:
   ("multi", local)                  local with several definitions (loop carried / flag)
   ("unknown",)
 """
+import re
 import sys
 sys.setrecursionlimit(20000)
 import re as _re_mod
@@ -1574,6 +1575,67 @@ class PathEval(Flow):
             return ("param", local)
         return ("unknown",)
 
+
+
+def reduce_proj(e, depth=0):
+    """Projections applied to a known aggregate select its operand: `Ready{Failed{i, e}}@Ready.0@Failed.1` is `e`."""
+    if depth > 12 or not isinstance(e, tuple):
+        return e
+    if e[0] == "proj":
+        base = reduce_proj(e[1], depth + 1)
+        path = list(e[2])
+        while path and base[0] == "agg":
+            el = path[0]
+            if el.startswith("@"):
+                if base[1].rsplit("::", 1)[-1] != el[1:]:
+                    break
+                path.pop(0)
+                continue
+            if el.startswith(".") and el[1:].isdigit() and int(el[1:]) < len(base[2]):
+                base = reduce_proj(base[2][int(el[1:])], depth + 1)
+                path.pop(0)
+                continue
+            if el.startswith(".") and len(base) > 3 and el[1:] in base[3]:
+                base = reduce_proj(base[2][list(base[3]).index(el[1:])], depth + 1)
+                path.pop(0)
+                continue
+            break
+        if not path:
+            return base
+        if base[0] == "proj":
+            return ("proj", base[1], tuple(base[2]) + tuple(path))
+        return ("proj", base, tuple(path))
+    return e
+
+
+def see_through_fn_items(e, depth=0):
+    """A callable argument that is a std function item applied to one argument, read as what it computes: `Ok(x)` / `Some(x)` / `Err(x)`
+    constructors give the aggregate (and `Ok(x)@Ok.0` is x), `core::convert::identity(x)` is x."""
+    if depth > 6 or not isinstance(e, tuple):
+        return e
+    if e[0] == "proj":
+        inner = see_through_fn_items(e[1], depth + 1)
+        if inner[0] == "agg" and inner[2] and len(e[2]) >= 2 and e[2][0] == "@" + inner[1].rsplit("::", 1)[-1] and e[2][1] == ".0":
+            rest = e[2][2:]
+            x = inner[2][0]
+            return ("proj", x, rest) if rest and x[0] != "proj" else (("proj", x[1], x[2] + rest) if rest else x)
+        if inner is not e[1]:
+            if inner[0] == "proj":
+                return ("proj", inner[1], inner[2] + e[2])
+            return ("proj", inner, e[2])
+        return e
+    if e[0] == "call" and re.search(r"core::ops::(FnMut::call_mut|FnOnce::call_once|Fn::call)$", e[1] or "") and len(e[2]) == 2:
+        f, a = strip_refs(e[2][0]), e[2][1]
+        if f[0] == "fn" and a[0] == "agg" and a[1] == "tuple" and len(a[2]) == 1:
+            x = see_through_fn_items(a[2][0], depth + 1)
+            nm = f[1]
+            if re.search(r"core::convert::identity$", nm):
+                return x
+            m = re.search(r"(?:core::prelude::v1|core::result::Result|core::option::Option)::(Ok|Err|Some)$", nm)
+            if m:
+                adt = "core::option::Option" if m.group(1) == "Some" else "core::result::Result"
+                return ("agg", adt + "::" + m.group(1), (x,), ("0",))
+    return e
 
 
 def path_edge_labels(body, flow, path, j, cache=None):
